@@ -80,6 +80,8 @@ var scopeActions = []scopeAction{
 	{"assign", `x = "assigned"`, true},
 	{"var-then-assign", "var x = \"inner\"\nx = \"inner2\"", false},
 	{"multi-var", `var x, z = "inner", 1`, false},
+	{"func-decl", "func x() { return \"fn\" }", false},
+	{"func-decl-and-call", "func x() { return \"fn\" }\nprobe(x())", false},
 	{"multi-var-from-list", `var x, z = ["inner", 1]`, false},
 	{"multi-var-from-call", "var x, z = func() { return \"inner\", 1 }()", false},
 	{"read-only", `probe(x)`, false},
@@ -212,6 +214,13 @@ func streamScope(o *Out, r *rand.Rand, n int, thorough bool) {
 			vals.Encode([]interface{}{[]interface{}{"loaded", "cached", "cached"}, int64(1)})},
 		{"func walk(n) {\nif n == 0 {\nreturn \"old\"\n}\nreturn walk(n - 1)\n}\nold = walk\nfunc walk(n) { return \"new\" }\nprobe(old(3))", vals.Encode("new")},
 		{"func f() {\nf = 5\nreturn 1\n}\nf()\nprobe(f)", vals.Encode(int64(5))},
+		// an item assignment that replaces the container (append by index, string element, first store into a nil map) stores
+		// into the binding that holds the container, wherever the statement runs
+		{"a = []\nfor i in [1, 2, 3] {\na[len(a)] = i * 10\n}\nprobe(a)", vals.Encode([]interface{}{int64(10), int64(20), int64(30)})},
+		{"stack = []\nfunc push(v) {\nstack[len(stack)] = v\nreturn len(stack)\n}\nprobe([push(1), push(2), stack])", vals.Encode([]interface{}{int64(1), int64(2), []interface{}{int64(1), int64(2)}})},
+		{"s = \"ab\"\nif true {\ns[0] = \"A\"\ns[len(s)] = \"c\"\n}\nprobe(s)", vals.Encode("Abc")},
+		{"s = \"ab\"\ntry {\ns[1] = \"B\"\n} catch e {\n}\nfunc() { s[0] = \"A\" }()\nprobe(s)", vals.Encode("AB")},
+		{"a = [1]\nfunc grow() {\nfor {\na[len(a)] = 2\nbreak\n}\n}\ngrow()\nswitch 1 {\ncase 1:\na[len(a)] = 3\n}\nprobe(a)", vals.Encode([]interface{}{int64(1), int64(2), int64(3)})},
 		{"g = probe\nfunc call2() { return g(5) }\ncall2()\ng = func(v) { return v + 1 }\nprobe(call2())", vals.Encode(int64(6))},
 	}
 	for _, c := range closureCases {
